@@ -172,6 +172,10 @@ impl IdMap {
                 flags: 0,
             },
         )?;
+        // The slot must be durable before the meta page counts it: otherwise a power loss can
+        // persist `i2e_len` without the slot, and recovery then sees an empty record at a counted
+        // position and rejects the logged CreateNode as "non-dense internal id".
+        pager.sync()?;
 
         self.i2e_len += 1;
         pager.set_i2e_len(self.i2e_len)?;
